@@ -123,6 +123,7 @@ func (c18) Gen(r *Rng, tier string, emit func(string, Tok)) {
 			addHistory(r.Range(1, 3), g.ops)
 		}
 	}
+	nCrafted := len(histories)
 	for k := 0; k < scale(tier, 3, 30); k++ {
 		period, ops := muxHistory(r, tier, r.Range(3, 6))
 		addHistory(period, ops)
@@ -160,11 +161,18 @@ func (c18) Gen(r *Rng, tier string, emit func(string, Tok)) {
 		}
 		_ = calls
 		step := 1
-		if total > 60 && tier != "thorough" {
+		crafted := hi < nCrafted
+		if !crafted && total > 60 && tier != "thorough" {
 			step = total/60 + 1
 		}
 		for k := 0; k < total; k += step {
-			emit("writer-fault", L(I(2), I(int64(period)), muxCaseTok(period, ops).At(1), I(int64(k)), Bool(r.Bool())))
+			if crafted {
+				// every Write index, permanent and one-shot
+				emit("writer-fault-all", L(I(2), I(int64(period)), muxCaseTok(period, ops).At(1), I(int64(k)), Bool(false)))
+				emit("writer-fault-all", L(I(2), I(int64(period)), muxCaseTok(period, ops).At(1), I(int64(k)), Bool(true)))
+			} else {
+				emit("writer-fault", L(I(2), I(int64(period)), muxCaseTok(period, ops).At(1), I(int64(k)), Bool(r.Bool())))
+			}
 		}
 	}
 }
